@@ -81,6 +81,14 @@ def unordered_vectors(crate, f, returners=None):
             if "std::vec::Vec<" in f.local_ty(dl) and not sort_blocks(f, dl):
                 tainted[dl] = {"targs": ["the unsorted result of %s" % c["res"].split("::")[-1]], "span": c["span"]}
                 out.setdefault(dl, ("unsorted result of %s" % c["res"].split("::")[-1], c["span"]))
+        # a closure that returns such a vector, handed to a mapping adaptor (`opt.map(|e| e.iter().cloned().collect())`): the
+        # adaptor's result carries it
+        if returners and re.search(r"::(map|and_then|map_or|map_or_else|unwrap_or_else|or_else|then|get_or_insert_with)$", c.get("res") or ""):
+            for cid, _loc in c.get("clos", []):
+                if cid in returners:
+                    dl = place_local(c["dest"])
+                    if "std::vec::Vec<" in f.local_ty(dl):
+                        out.setdefault(dl, ("result of closure %s" % cid.split("::")[-1], c["span"]))
     for bb, c in f.calls():
         if c.get("fn") == "std::iter::Iterator::collect" and _is_s1(c.get("targs", [])):
             dl = place_local(c["dest"])
@@ -140,7 +148,7 @@ def _moved_into(f, v):
         for bb, c in f.calls():
             if any(op_local(a) in out for a in c["args"]) and place_local(c["dest"]) not in out:
                 res = c.get("res") or ""
-                if re.search(r"(Arc::<T>::new|Option::<T>::Some|::into_iter|::clone|::cloned|::into|::from)$", res):
+                if re.search(r"(Arc::<T>::new|Option::<T>::Some|::into_iter|::clone|::cloned|::into|::from|::unwrap_or_default|::unwrap_or|::unwrap|::expect|::unwrap_or_else|::ok_or|::ok_or_else)$", res):
                     out.add(place_local(c["dest"]))
                     changed = True
     return out
@@ -210,6 +218,10 @@ def r4a_unordered(ctx, only_fns=None, rule="R4a"):
                 continue
             if key in REVIEWED:
                 r.review(key, REVIEWED[key])
+                continue
+            if f.kind == "closure" and f.id in returners:
+                # the closure's result is an unordered vector of the function that receives it (followed there)
+                r.ok(sample={"fn": f.id.split("::")[-1], "vector": "closure result", "sorted": "answerable where the closure's result lands"})
                 continue
             r.violate(key, "%s returns `%s`, filled by a %s (at %s), without sorting: element order varies from run to run" % (
                 f.id, f.local_name(v) or "_%d" % v, src, crate.span_str(span)))
